@@ -1,8 +1,13 @@
 #!/bin/bash
-# re-runs every kept seeded change against the current /repo HEAD and the current checks (quick tier)
+# re-runs every kept seeded change against the current /repo HEAD and the current checks (quick tier),
+# refreshes seeded/<name>/check_output.txt and prints one line per seed; P = parallel jobs (default 4)
 cd /verif
-for d in seeded/*/; do
-  n=$(basename $d); id=${n%%-*}
-  r=$(SHOW=1 tools/try_seed.sh $id $d/patch.diff 2>&1 | grep RESULT)
-  echo "$n :: $r"
-done
+P=${P:-4}
+one() {
+  d=$1; n=$(basename $d); id=${n%%-*}
+  det=$(SHOW=1 tools/try_seed.sh $id $d/patch.diff 2>&1)
+  echo "$det" | grep -A2 "RESULT\|VIOLATION" | head -8 > $d/check_output.txt
+  echo "$n :: $(echo "$det" | grep RESULT)"
+}
+export -f one
+ls -d seeded/*/ | xargs -P $P -I{} bash -c 'one {}'
